@@ -20,9 +20,11 @@ import (
 	"errors"
 	"fmt"
 	"io"
+	"maps"
 	"math"
 	"net/http"
 	"net/textproto"
+	"slices"
 	"strconv"
 	"strings"
 	"time"
@@ -63,7 +65,9 @@ func (g grpcClientProtocol) addProtocolResponseHeaders(meta responseMeta, header
 			meta.pendingTrailerKeys.add(k)
 		}
 	}
-	for k := range meta.pendingTrailerKeys {
+	// Announced in sorted order, so that the same exchange always produces
+	// the same response (Go randomizes the order of a range over a map).
+	for _, k := range slices.Sorted(maps.Keys(meta.pendingTrailerKeys)) {
 		headers.Add("Trailer", textproto.CanonicalMIMEHeaderKey(k))
 	}
 	if !meta.pendingTrailerKeys.contains("Grpc-Status") {
